@@ -184,7 +184,7 @@ str_t BaseKillPlugin__getxattr(BaseKillPlugin *self, str_t path, str_t attr)
   __CPROVER_requires(path == g_victim_path && xa_index(attr) < XA_N && ghost_exc == 0)
   __CPROVER_assigns(g_gx_str, g_gx_val)
   __CPROVER_ensures(g_xa_present[xa_index(attr)] ? (__CPROVER_return_value == g_gx_str && g_gx_val == g_xa_prev[xa_index(attr)] &&
-                                                   __CPROVER_return_value != STR_EMPTY && __CPROVER_return_value != STR_0)
+                                                   __CPROVER_return_value != STR_EMPTY && __CPROVER_return_value != STR_0 && __CPROVER_return_value != ((str_t)7))
                                                  : __CPROVER_return_value == STR_EMPTY)
   __CPROVER_ensures(ghost_exc == 0);
 #define XA_SET_EFFECT(i) (xa_index(attr) == (i) \
